@@ -42,7 +42,7 @@ func genC14() *rapid.Generator[ProgCase] {
 }
 
 // observeAll compares every observable of the registry with the model.
-func observeAll(s *bt.Srv, m *bt.Model, parents []string, withSample bool) string {
+func observeAll(s bt.Execer, m *bt.Model, parents []string, withSample bool) string {
 	for _, p := range parents {
 		op := &bt.Op{K: "ListTables", Parent: p}
 		if mis := m.Step(op, s.Exec(op)); mis != "" {
